@@ -43,6 +43,39 @@ fn forest_gen(p: Pairs<'_, R>, names: &[String]) -> String {
     for pair in p { let sp = pair.as_span(); s.push_str(&format!(" ({} {} {} {}", name_of(names, pair.as_rule()), sp.start(), sp.end(), pair.as_node_tag().map(hexs).unwrap_or("_".into()))); s.push_str(&forest_gen(pair.into_inner(), names)); s.push(')'); }
     s
 }
+include!(concat!(env!("OUT_DIR"), "/unicode_fns.rs"));
+fn ranges_of(f: &dyn Fn(char) -> bool) -> Vec<(u32, u32)> {
+    let mut out = vec![]; let mut start: Option<u32> = None; let mut prev = 0u32;
+    for cp in 0..=0x10FFFFu32 {
+        let c = match char::from_u32(cp) { Some(c) => c, None => { if let Some(s) = start.take() { out.push((s, prev)); } continue } };
+        if f(c) { if start.is_none() { start = Some(cp); } prev = cp; } else if let Some(s) = start.take() { out.push((s, prev)); }
+    }
+    if let Some(s) = start { out.push((s, prev)); }
+    out
+}
+/// `X <NAME>`: the generated parser and the VM on the Unicode property built-in NAME (oracle only; the tables themselves are C16's):
+/// `r = { NAME }` is generated and interpreted, and compared with Vm::parse on the boundary code points of the set
+fn eval_unicode(name: &str) -> (String, String) {
+    let f = match FUNCS.iter().find(|f| f.1 == name) { Some(f) => f, None => return ("oracle-only".into(), "ok".into()) };
+    let rules = vec![OptimizedRule { name: "r".into(), ty: pest_meta::ast::RuleType::Normal, expr: pest_meta::optimizer::OptimizedExpr::Ident(name.to_string()) }];
+    let ranges = ranges_of(&f.2);
+    let names = vec!["r".to_string()];
+    let pd = pest_generator::parse_derive::ParsedDerive { name: syn::Ident::new("P", proc_macro2::Span::call_site()), generics: syn::Generics::default(), non_exhaustive: false };
+    let doc = pest_generator::docs::DocComment { grammar_doc: String::new(), line_docs: HashMap::new() };
+    let tokens = match catch(|| pest_generator::generator::generate(pd, vec![], rules.clone(), vec![name], &doc, false)) { Ok(t) => t, Err(_) => return ("oracle-only".into(), format!("FAIL the generator panicked on the built-in {}", name)) };
+    let idx = |s: &str| -> Option<u16> { if s == "EOI" { Some(1) } else if s == "r" { Some(0) } else { None } };
+    let rg = ranges.clone();
+    let uni = move |s: &str| -> Option<Vec<(u32, u32)>> { FUNCS.iter().find(|g| g.1 == s).map(|g| if g.1 == name { rg.clone() } else { ranges_of(&g.2) }) };
+    let fns = match translate(tokens, &Tr { rule_index: &idx, unicode: &uni, strings: Default::default() }) { Ok(f) => f, Err(e) => return ("oracle-only".into(), format!("FAIL untranslatable built-in {}: {}", name, e.replace('\n', " "))) };
+    FNS.with(|m| *m.borrow_mut() = fns);
+    let vm = pest_vm::Vm::new(rules);
+    let mut pts: Vec<u32> = vec![0x41, 0x10FFFF];
+    for (a, b) in ranges.iter().take(40) { for p in [a.saturating_sub(1), *a, *b, b + 1] { pts.push(p); } }
+    for p in pts { if let Some(c) = char::from_u32(p) { let s = c.to_string(); let g = run_generated(&names, "r", &s); let v = run_vm(&vm, "r", &s);
+        if g != v { return ("oracle-only".into(), format!("FAIL built-in {} on U+{:04X}: generated parser `{}` but VM `{}`", name, p, g, v)); } } }
+    ("oracle-only".into(), "ok".into())
+}
+
 fn forest_vm(p: Pairs<'_, &str>) -> String {
     let mut s = String::new();
     for pair in p { let sp = pair.as_span(); s.push_str(&format!(" ({} {} {} {}", pair.as_rule(), sp.start(), sp.end(), pair.as_node_tag().map(hexs).unwrap_or("_".into()))); s.push_str(&forest_vm(pair.into_inner())); s.push(')'); }
@@ -78,6 +111,7 @@ fn eval_line(l: &str, stats: &mut BTreeMap<String, u64>) -> (String, String) {
             Err(e) => { *stats.entry("G_untranslatable".into()).or_default() += 1; (format!("untranslatable {}", e.replace('\n', " ")), "FAIL the emitted code is outside the translator's sub-language (translator or generator changed)".into()) }
         };
     }
+    if let Some(name) = l.strip_prefix("X ") { *stats.entry("unicode_builtins".into()).or_default() += 1; return eval_unicode(name.trim()); }
     let mut it = l.splitn(4, ' ');
     if it.next() != Some("V") { return bad("kind"); }
     let _cfg = it.next(); if it.next() != Some("gen") { return bad("backend"); }
@@ -135,6 +169,9 @@ fn main() {
                     }
                 }
             }
+            // the Unicode property built-ins: generated parser vs VM on the boundary code points of every advertised property
+            // (every third property in the quick tier, rotating with the seed; all of them in thorough)
+            for (k, f) in FUNCS.iter().enumerate() { if thorough || (k as u64 + seed) % 3 == 0 { let l = format!("X {}", f.1); let (i, v) = eval_line(&l, &mut stats); out.push(l, i, v); } }
             let samples: Vec<String> = out.ops.iter().step_by((out.ops.len() / 4).max(1)).take(4).map(|s| if s.len() > 300 { format!("{}…", &s[..300]) } else { s.clone() }).collect();
             let stats_s = format!("{{\"evaluations\":{},\"grammars_syntactic\":{},\"grammars_behavioural\":{},\"lines\":{},\"distinct_nontrivial\":{},\"extras\":{},\"max_exhaustive_input_len\":{},\"observed\":{:?},\"samples\":{:?}}}", ninputs + ngram as u64, ngram, nbeh, out.ops.len(), nontrivial, EXTRAS, len, stats, samples);
             out.write(&dir, &stats_s);
